@@ -16,6 +16,9 @@
 (*      some, rtime, steps,         -- returned MacroStep (some = not None)*)
 (*      exc, eobj, eidx,            -- raised exception class ("" = none)  *)
 (*      log,                        -- chronological effect log (LogE)     *)
+(*      opq,                        -- opaque: the chart's code carries no *)
+(*                                     probes (recorded runs of foreign    *)
+(*                                     charts): log-based clauses are off  *)
 (*      stale,                      -- number of MacroSteps returned by    *)
 (*                                     EARLIER calls whose content changed *)
 (*      ign,                        -- run with ignore_contract=True       *)
@@ -217,7 +220,7 @@ RetSeq(o) ==
 C03_applies(c, G, o) == IsExec(o) /\ Returned(o)
 
 (* (a) the code fragments executed, in order, are what the MacroStep says *)
-C03_truth(c, G, o) == C03_applies(c, G, o) => CodeSeq(o) = RetSeq(o)
+C03_truth(c, G, o) == (C03_applies(c, G, o) /\ ~o.opq) => CodeSeq(o) = RetSeq(o)
 
 C03_conf(c, G, o) ==
   C03_applies(c, G, o) => o.post.conf = ConfBefore(o.pre.conf, o.steps, Len(o.steps) + 1)
@@ -233,10 +236,10 @@ ExpectedSent(c, m) ==
   \o FlattenSeq([j \in DOMAIN m.entered |-> SentOfDesc(c.entry[m.entered[j]])])
 
 C03_sent(c, G, o) ==
-  C03_applies(c, G, o) => \A k \in DOMAIN o.steps : o.steps[k].sent = ExpectedSent(c, o.steps[k])
+  (C03_applies(c, G, o) /\ ~o.opq) => \A k \in DOMAIN o.steps : o.steps[k].sent = ExpectedSent(c, o.steps[k])
 
 C03_context(c, G, o) ==
-  C03_applies(c, G, o) =>
+  (C03_applies(c, G, o) /\ ~o.opq) =>
     LET cs == LogK(o, {"xcode", "acode", "ecode"})
         inc(e) == CASE e.k = "xcode" -> c.exit[e.a].incx
                     [] e.k = "ecode" -> c.entry[e.a].incx
@@ -451,7 +454,7 @@ ObservedCK(o, ck) ==
                              ELSE <<sel[j].k, sel[j].a, 0, 0>>]
 
 C08_points(c, G, o) ==
-  (IsExec(o) /\ Returned(o) /\ ~o.ign) =>
+  (IsExec(o) /\ Returned(o) /\ ~o.ign /\ ~o.opq) =>
     \A ck \in 1..3 : ObservedCK(o, ck) = ExpectedCK(c, o, ck)
 
 CondErrOf(ck) == CASE ck = 1 -> "PreconditionError" [] ck = 2 -> "PostconditionError"
@@ -459,7 +462,7 @@ CondErrOf(ck) == CASE ck = 1 -> "PreconditionError" [] ck = 2 -> "PostconditionE
 
 (* the first false condition raises at once, with the right class, owner and condition *)
 C08_firstfalse(c, G, o) ==
-  IsExec(o) =>
+  (IsExec(o) /\ ~o.opq) =>
     /\ \A j \in DOMAIN o.log :
          (o.log[j].k = "cond" /\ o.log[j].v = 0) =>
             /\ j = Len(o.log)
@@ -531,7 +534,7 @@ ExpectedCM(c, o) ==
   \o << <<"end", 0, 0, 0>> >>
 
 C10_metas(c, G, o) ==
-  (IsExec(o) /\ Returned(o) /\ o.hasl2) =>
+  (IsExec(o) /\ Returned(o) /\ o.hasl2 /\ ~o.opq) =>
     LET sel == SelectSeq(o.log, LAMBDA e : IsCode(e) \/ IsMeta(e))
     IN [j \in DOMAIN sel |-> CM(sel[j])] = ExpectedCM(c, o)
 
@@ -552,7 +555,7 @@ C10_failfast(c, G, o) ==
          /\ \A j \in 1..Len(o.log) : o.log[j] = o.ref.log[j]
 
 C10_noerror(c, G, o) ==
-  (IsExec(o) /\ o.mfail = 0) => o.exc # "PropertyStatechartError"
+  (IsExec(o) /\ o.mfail = 0 /\ ~o.opq) => o.exc # "PropertyStatechartError"
 
 C10_clock(c, G, o) == IsExec(o) => \A j \in DOMAIN o.mt : o.mt[j] = o.clk
 
